@@ -174,6 +174,11 @@ class HplExpression(HplAstObject):
             obj = stack.pop()
             if obj.is_accessor:
                 obj.type_check_references(this_msg, variables)
+                # index expressions along the access chain contain references of their own
+                while obj.is_accessor:
+                    if obj.is_indexed:
+                        stack.append(obj.index)
+                    obj = obj.object
             else:
                 stack.extend(reversed(obj.children()))
 
